@@ -145,7 +145,7 @@ impl Leaf {
                     let mut k = 0;
                     for r in 0..rows {
                         for c in 0..columns {
-                            (*p).set(r, c, id * LEAF_MUL + k);
+                            (*p).set(r, c, expected_value(id, k));
                             k += 1;
                         }
                     }
@@ -172,13 +172,86 @@ impl Leaf {
 fn fill<const D: usize>(t: &mut Tensor<u64, D>, id: u64) {
     let mut k = 0;
     for x in t.iter_reference_mut() {
-        *x = id * LEAF_MUL + k;
+        *x = expected_value(id, k);
         k += 1;
     }
 }
 
 fn leaf_values(id: u64, n: usize) -> Vec<u64> {
-    (0..n as u64).map(|k| id * LEAF_MUL + k).collect()
+    (0..n as u64).map(|k| expected_value(id, k)).collect()
+}
+
+thread_local! {
+    /// what the leaves of the current case hold: 0 the cell ids `leaf * 10^6 + offset` (distinct
+    /// everywhere), 1 zeros, 2 one value everywhere, 3 small values equal in neighbouring pairs
+    /// (zeros among them).  With degenerate data a cell is recognised by the ADDRESS of the
+    /// reference the library hands out (`locate`), not by the value behind it.
+    static DATA_MODE: std::cell::Cell<u8> = const { std::cell::Cell::new(0) };
+    /// first address, number of elements and id of every leaf of the case
+    static LEAF_RANGES: std::cell::RefCell<Vec<(usize, usize, u64)>> = const { std::cell::RefCell::new(Vec::new()) };
+}
+
+fn data_mode() -> u8 {
+    DATA_MODE.with(|c| c.get())
+}
+
+fn expected_value(id: u64, k: u64) -> u64 {
+    match data_mode() {
+        0 => id * LEAF_MUL + k,
+        1 => 0,
+        2 => 7,
+        _ => (k / 2) % 3,
+    }
+}
+
+/// a value no leaf holds: the reference handed out does not point at what the leaf holds there
+const MISPLACED: u64 = 777_000_000_777;
+/// (degenerate data only) the reference points outside every leaf of the case
+const UNLOCATED: u64 = 776_000_000_776;
+
+fn register_leaf(first: &u64, n: usize, id: u64) {
+    LEAF_RANGES.with(|r| r.borrow_mut().push((first as *const u64 as usize, n, id)));
+}
+
+fn locate_address(r: &u64) -> Option<(u64, u64)> {
+    let addr = r as *const u64 as usize;
+    LEAF_RANGES.with(|ranges| {
+        ranges.borrow().iter().find_map(|&(base, n, id)| {
+            if addr >= base && addr < base + 8 * n && (addr - base) % 8 == 0 { Some((id, ((addr - base) / 8) as u64)) } else { None }
+        })
+    })
+}
+
+/// The cell (as its id `leaf * 10^6 + offset`) a reference handed out by the library points at:
+/// by address when it lies inside a leaf of the case (the value there must be the leaf's own),
+/// else (a copy of a leaf owned by a view) by the value.
+fn locate(r: &u64) -> u64 {
+    let v = *r;
+    if v == SENTINEL {
+        return v;
+    }
+    let addr = r as *const u64 as usize;
+    let found = LEAF_RANGES.with(|ranges| {
+        ranges.borrow().iter().find_map(|&(base, n, id)| {
+            if addr >= base && addr < base + 8 * n && (addr - base) % 8 == 0 { Some((id, ((addr - base) / 8) as u64)) } else { None }
+        })
+    });
+    match found {
+        Some((id, k)) => if v == expected_value(id, k) { id * LEAF_MUL + k } else { MISPLACED },
+        None => if data_mode() == 0 { v } else { UNLOCATED },
+    }
+}
+
+/// a value obtained by value (no reference): with degenerate data the cell is the one the plain
+/// checked getter designates, provided it holds that value
+fn locate_value(val: u64, r: Option<&u64>) -> u64 {
+    if data_mode() == 0 {
+        return val;
+    }
+    match r {
+        Some(r) if *r == val => locate(r),
+        _ => MISPLACED,
+    }
 }
 
 // ---------------------------------------------------------------------------------------------
@@ -347,7 +420,7 @@ fn describe<S: TensorRef<u64, D>, const D: usize>(v: &S, limit: usize) -> String
         .take(limit)
         .map(|idx| {
             let idx: [usize; D] = crate::util::to_array(&idx);
-            show_cell_opt(v.get_reference(idx).copied())
+            show_cell_opt(v.get_reference(idx).map(locate))
         })
         .collect();
     format!("shape={} cells={}", show_shape(&shape), cells.join(" "))
@@ -1090,8 +1163,9 @@ fn apply_op(stack: &mut Vec<DV>, op: &mut Op, arena: &mut Vec<Leaf>, prev_leaf: 
                         None => {
                             let sh: [(&'static str, usize); $D] = shape_array(shape);
                             let n: usize = shape.iter().map(|x| x.1).product();
-                            let t = Tensor::from(sh, leaf_values(*id, n));
-                            arena.push(Leaf { id: *id, ptr: LeafPtr::$P(Box::into_raw(Box::new(t))) });
+                            let t = Box::new(Tensor::from(sh, leaf_values(*id, n)));
+                            register_leaf(t.get_reference([0; $D]).expect("first element"), n, *id);
+                            arena.push(Leaf { id: *id, ptr: LeafPtr::$P(Box::into_raw(t)) });
                             *slot = Some(arena.len() - 1);
                             arena.len() - 1
                         }
@@ -1124,8 +1198,9 @@ fn apply_op(stack: &mut Vec<DV>, op: &mut Op, arena: &mut Vec<Leaf>, prev_leaf: 
             let s = match *slot {
                 Some(s) => s,
                 None => {
-                    let m = Matrix::from_flat_row_major((*rows, *cols), leaf_values(*id, *rows * *cols));
-                    arena.push(Leaf { id: *id, ptr: LeafPtr::M(Box::into_raw(Box::new(m))) });
+                    let m = Box::new(Matrix::from_flat_row_major((*rows, *cols), leaf_values(*id, *rows * *cols)));
+                    register_leaf(m.get_reference(0, 0), *rows * *cols, *id);
+                    arena.push(Leaf { id: *id, ptr: LeafPtr::M(Box::into_raw(m)) });
                     *slot = Some(arena.len() - 1);
                     arena.len() - 1
                 }
@@ -1320,19 +1395,22 @@ fn get<const D: usize>(v: &mut Dyn<D>, idx: &[usize], via: &str) -> String {
         }
     }
     let r: Result<Option<u64>, PanicKind> = match via {
-        "mut" => catch(|| v.get_reference_mut(idx).map(|r| *r)),
-        "unchecked" => catch(|| Some(unsafe { *v.get_reference_unchecked(idx) })),
-        "unchecked_mut" => catch(|| Some(unsafe { *v.get_reference_unchecked_mut(idx) })),
-        "access" => catch(|| TensorAccess::from_source_order(&*v).try_get_reference(idx).copied()),
-        "access_mut" => catch(|| TensorAccess::from_source_order(&mut *v).try_get_reference_mut(idx).map(|r| *r)),
+        "mut" => catch(|| v.get_reference_mut(idx).map(|r| locate(r))),
+        "unchecked" => catch(|| Some(locate(unsafe { v.get_reference_unchecked(idx) }))),
+        "unchecked_mut" => catch(|| Some(locate(unsafe { v.get_reference_unchecked_mut(idx) }))),
+        "access" => catch(|| TensorAccess::from_source_order(&*v).try_get_reference(idx).map(locate)),
+        "access_mut" => catch(|| TensorAccess::from_source_order(&mut *v).try_get_reference_mut(idx).map(|r| locate(r))),
         "view_get_ref" => {
-            return match catch(|| *TensorView::from(&*v).index().get_ref(idx)) {
+            return match catch(|| locate(TensorView::from(&*v).index().get_ref(idx))) {
                 Ok(x) => show_cell_opt(Some(x)),
                 Err(k) => none_or(k),
             }
         }
         "view_get" => {
-            return match catch(|| TensorView::from(&*v).index().get(idx)) {
+            return match catch(|| {
+                let val = TensorView::from(&*v).index().get(idx);
+                locate_value(val, v.get_reference(idx))
+            }) {
                 Ok(x) => show_cell_opt(Some(x)),
                 Err(k) => none_or(k),
             }
@@ -1340,9 +1418,9 @@ fn get<const D: usize>(v: &mut Dyn<D>, idx: &[usize], via: &str) -> String {
         "boxed_ref" => catch(|| {
             // a shared borrow of the boxed view, boxed again as a sized `S`
             let b: Box<&Dyn<D>> = Box::new(&*v);
-            b.get_reference(idx).copied()
+            b.get_reference(idx).map(locate)
         }),
-        _ => catch(|| v.get_reference(idx).copied()),
+        _ => catch(|| v.get_reference(idx).map(locate)),
     };
     match r {
         Ok(o) => show_cell_opt(o),
@@ -1364,13 +1442,13 @@ fn set_write<const D: usize>(v: &mut Dyn<D>, idx: &[usize], via: &str) -> Result
     match via {
         "unchecked_mut" => catch(|| {
             let r = unsafe { v.get_reference_unchecked_mut(idx) };
-            let old = *r;
+            let old = locate(r);
             *r = SENTINEL;
             Some(old)
         }),
         "access_mut" => catch(|| {
             TensorAccess::from_source_order(&mut *v).try_get_reference_mut(idx).map(|r| {
-                let old = *r;
+                let old = locate(r);
                 *r = SENTINEL;
                 old
             })
@@ -1379,7 +1457,7 @@ fn set_write<const D: usize>(v: &mut Dyn<D>, idx: &[usize], via: &str) -> Result
             let mut view = TensorView::from(&mut *v);
             let mut access = view.index_mut();
             let r = access.get_ref_mut(idx);
-            let old = *r;
+            let old = locate(r);
             *r = SENTINEL;
             Some(old)
         }) {
@@ -1388,7 +1466,7 @@ fn set_write<const D: usize>(v: &mut Dyn<D>, idx: &[usize], via: &str) -> Result
         },
         _ => catch(|| {
             v.get_reference_mut(idx).map(|r| {
-                let old = *r;
+                let old = locate(r);
                 *r = SENTINEL;
                 old
             })
@@ -1412,9 +1490,94 @@ fn display<const D: usize>(v: &Dyn<D>, via: &str) -> String {
             format!("{}", TensorView::from(v))
         }
     }) {
-        Ok(text) => format!("shape={} cells={}", show_shape(&shape), cells_of_display(&text, D)),
+        Ok(text) => {
+            // the numbers printed are the values the plain getter reads, in row-major order; the
+            // cells are where those references point
+            let printed = values_of_display(&text, D);
+            let lens: Vec<usize> = shape.iter().map(|d| d.1).collect();
+            let refs: Vec<Option<&u64>> = all_indexes(&lens).into_iter().map(|i| v.get_reference(crate::util::to_array(&i))).collect();
+            let read: Vec<u64> = refs.iter().map(|r| r.map_or(MISPLACED, |x| *x)).collect();
+            if printed != read {
+                return format!("shape={} display-values-differ printed={:?} read={:?}", show_shape(&shape), printed, read);
+            }
+            let cells: Vec<String> = refs.iter().map(|r| show_cell_opt(r.map(locate))).collect();
+            format!("shape={} cells={}", show_shape(&shape), cells.join(" "))
+        }
         Err(k) => panic_str(k),
     }
+}
+
+/// A closure handed to `TensorView::map / map_mut / map_with_index / map_mut_with_index` (or the
+/// body of a loop over `iter`) that returns its argument for `k` calls and panics on the next:
+/// the cells it was shown, in order.  The view and its leaves survive unchanged.
+fn first_cells<const D: usize>(v: &mut Dyn<D>, k: usize, via: &str, write: bool) -> String {
+    use std::cell::RefCell;
+    let shape = v.view_shape();
+    let lens: Vec<usize> = shape.iter().map(|d| d.1).collect();
+    let n: usize = lens.iter().product();
+    if n > 4096 {
+        return "skip".into();
+    }
+    let seen: RefCell<Vec<(Option<[usize; D]>, u64)>> = RefCell::new(vec![]);
+    let tick = |i: Option<[usize; D]>, x: u64| -> u64 {
+        if seen.borrow().len() == k {
+            panic!("the mapping function gives up at call {}", k);
+        }
+        seen.borrow_mut().push((i, x));
+        // (the mutating forms store what the closure returns: the sentinel marks the cells the
+        // library wrote before the closure gave up)
+        if write { SENTINEL } else { x }
+    };
+    let r = catch(|| match via {
+        "map" => drop(TensorView::from(&*v).map(|x| tick(None, x))),
+        "map_with_index" => drop(TensorView::from(&*v).map_with_index(|i, x| tick(Some(i), x))),
+        "map_mut_with_index" => TensorView::from(&mut *v).map_mut_with_index(|i, x| tick(Some(i), x)),
+        "iter" => {
+            for x in TensorView::from(&*v).iter() {
+                tick(None, x);
+            }
+        }
+        "iter_reference_mut" => {
+            for x in TensorView::from(&mut *v).iter_reference_mut() {
+                let y = tick(None, *x);
+                *x = y;
+            }
+        }
+        _ => TensorView::from(&mut *v).map_mut(|x| tick(None, x)),
+    });
+    match r {
+        Ok(()) | Err(PanicKind::Explicit) => {}
+        Err(kind) => return panic_str(kind),
+    }
+    let seen = seen.into_inner();
+    if seen.len() != k.min(n) || (r.is_ok() != (k >= n)) {
+        return format!("calls={} panicked={}", seen.len(), r.is_err());
+    }
+    let order = all_indexes(&lens);
+    let cells: Vec<String> = seen
+        .iter()
+        .enumerate()
+        .map(|(pos, (i, x))| {
+            let idx: [usize; D] = match i {
+                Some(i) => *i,
+                None => crate::util::to_array(&order[pos]),
+            };
+            match v.get_reference(idx) {
+                Some(r) if !write && *r == *x => show_cell_opt(Some(locate(r))),
+                Some(r) if write && *r == SENTINEL => match locate_address(r) {
+                    Some((id, k)) if expected_value(id, k) == *x => show_cell_opt(Some(id * LEAF_MUL + k)),
+                    _ => show_cell_opt(Some(MISPLACED)),
+                },
+                _ => show_cell_opt(Some(MISPLACED)),
+            }
+        })
+        .collect();
+    format!("cells={}", cells.join(" "))
+}
+
+fn values_of_display(text: &str, d: usize) -> Vec<u64> {
+    let body: String = text.lines().skip(if d == 0 { 1 } else { 2 }).collect::<Vec<_>>().join(" ");
+    body.split(|c: char| !c.is_ascii_digit()).filter(|t| !t.is_empty()).map(|t| t.parse::<u64>().unwrap()).collect()
 }
 
 /// the numbers a `Display` of a tensor prints, after its header lines
@@ -1482,16 +1645,20 @@ fn memorder<const D: usize>(v: &Dyn<D>) -> String {
                 };
                 let lens: Vec<usize> = access.shape().iter().map(|d| d.1).collect();
                 let mut cells: Vec<u64> = vec![];
+                let mut values: Vec<u64> = vec![];
                 for idx in all_indexes(&lens) {
                     let idx: [usize; D] = crate::util::to_array(&idx);
                     match access.try_get_reference(idx) {
-                        Some(x) => cells.push(*x),
+                        Some(x) => {
+                            cells.push(locate(x));
+                            values.push(*x);
+                        }
                         None => return "walk-failed".to_string(),
                     }
                 }
                 // the library's own iteration order over the access must be the same walk
                 let iterated: Vec<u64> = access.iter().collect();
-                if iterated != cells {
+                if iterated != values {
                     return "walk-differs-from-iter".to_string();
                 }
                 let first = cells[0];
@@ -1553,6 +1720,8 @@ impl Runner {
         for l in self.arena.drain(..) {
             l.free();
         }
+        LEAF_RANGES.with(|r| r.borrow_mut().clear());
+        DATA_MODE.with(|c| c.set(0));
         self.stack = Some(vec![]);
         self.script = None;
     }
@@ -1750,7 +1919,7 @@ impl Runner {
         for leaf in &self.arena {
             let data = leaf.scan();
             for (k, x) in data.iter().enumerate() {
-                if *x != leaf.id * LEAF_MUL + k as u64 {
+                if *x != expected_value(leaf.id, k as u64) {
                     changed.push((leaf.id, k, *x));
                 }
             }
@@ -1786,11 +1955,52 @@ impl Runner {
         }
     }
 
+    /// `first k`: with the mutating forms the closure returns the sentinel, and afterwards the
+    /// leaves must show it at exactly the cells the closure was shown before it gave up
+    fn first(&mut self, k: usize, via: &str) -> String {
+        let write = matches!(via, "" | "map_mut" | "map_mut_with_index" | "iter_reference_mut") && !self.has_owned_copies();
+        let ans = match self.stack_mut().last_mut() {
+            Some(top) => dv_each!(top, v => first_cells(v, k, via, write)),
+            None => return "skip".into(),
+        };
+        if !write {
+            return ans;
+        }
+        self.stack = None;
+        let mut written: std::collections::BTreeSet<String> = Default::default();
+        for leaf in &self.arena {
+            for (pos, x) in leaf.scan().iter().enumerate() {
+                if *x != expected_value(leaf.id, pos as u64) {
+                    written.insert(format!("some({}:{}){}", leaf.id, pos, if *x == SENTINEL { "" } else { "?" }));
+                }
+            }
+            leaf.restore();
+        }
+        match ans.strip_prefix("cells=") {
+            Some(cells) => {
+                let shown: std::collections::BTreeSet<String> = cells.split(' ').filter(|c| !c.is_empty()).map(|c| c.to_string()).collect();
+                if shown == written {
+                    ans
+                } else {
+                    format!("{} written={}", ans, written.into_iter().collect::<Vec<_>>().join(" "))
+                }
+            }
+            None => ans,
+        }
+    }
+
     fn dynamic_step(&mut self, toks: &[&str]) -> String {
         let via = opt_arg("via", toks).unwrap_or("");
         match toks {
-            ["@", ..] => {
+            ["@", rest @ ..] => {
                 self.reset();
+                let mode = match opt_arg("data", rest) {
+                    Some("zeros") => 1,
+                    Some("equal") => 2,
+                    Some("pairs") => 3,
+                    _ => 0,
+                };
+                DATA_MODE.with(|c| c.set(mode));
                 "ok".into()
             }
             ["shape", ..] => match self.stack_mut().last() {
@@ -1818,6 +2028,13 @@ impl Runner {
                 Some(top) => dv_each!(top, v => display(v, via)),
                 None => "skip".into(),
             },
+            ["first", k, ..] => {
+                let k: usize = match k.parse() {
+                    Ok(k) => k,
+                    Err(_) => return "bad-op".into(),
+                };
+                self.first(k, via)
+            }
             ["sources", ..] => self.sources(if via.starts_with("owned") { 2 } else { 1 }),
             ["length_of", name, ..] => {
                 let name = intern(name);
@@ -2008,12 +2225,12 @@ impl Script {
     }
 }
 
-const STATIC_KEYS: [&str; 17] = [
+const STATIC_KEYS: [&str; 19] = [
     "stack_tuple2_refs", "stack_tuple3_mixed", "stack_tuple4_owned", "stack_array_boxed_ref",
     "chain_tuple2_mut", "chain_tuple3_refs", "chain_tuple4_owned", "chain_array3_refs",
     "matrix_backed", "tensor_methods", "matrix_of_tensor_view", "rename_setters",
     "reverse_swap_source", "record_display_map", "boxed_dyn_ref", "shared_receivers",
-    "matrix_stacks_typed",
+    "matrix_stacks_typed", "same_source_twice", "adversarial_names_shared",
 ];
 
 fn static_case(key: &str) -> Vec<(String, String)> {
@@ -2221,6 +2438,86 @@ fn static_case(key: &str) -> Vec<(String, String)> {
                 s.memorder(&v);
                 s.probe_mut(&mut v);
             }
+        }
+        "same_source_twice" => {
+            // one tensor — the same object — as every source of a stack / chain (the model sees
+            // as many leaves with the same id and the same data)
+            let t = s.leaf(1, [("a", 2), ("b", 3)]);
+            let again = |s: &mut Script| s.rec("leaf 1 a:2,b:3 via=static".into(), "ok shape=a:2,b:3".into());
+            again(&mut s);
+            let st = TensorStack::<u64, (_, _), 2>::from((&t, &t), (0, "s"));
+            s.built("stack 2 0:s", &st);
+            s.probe(&st);
+            again(&mut s);
+            again(&mut s);
+            again(&mut s);
+            let ch = TensorChain::<u64, [_; 3], 2>::from([&t, &t, &t], "b");
+            s.built("chain 3 b", &ch);
+            s.probe(&ch);
+            let rv = TensorReverse::from(&ch, &["b"]);
+            s.built("reverse b", &rv);
+            s.probe(&rv);
+            // a stack of the same object beside itself, chained with itself
+            again(&mut s);
+            again(&mut s);
+            let s1 = TensorStack::<u64, [_; 2], 2>::from([&t, &t], (2, "s"));
+            s.built("stack 2 2:s", &s1);
+            again(&mut s);
+            again(&mut s);
+            let s2 = TensorStack::<u64, [_; 2], 2>::from([&t, &t], (2, "s"));
+            s.built("stack 2 2:s", &s2);
+            let both = TensorChain::<u64, (_, _), 3>::from((&s1, &s1), "s");
+            let _ = &s2;
+            s.built("chain 2 s", &both);
+            s.probe(&both);
+            // one view twice
+            let view = TensorView::from(&t);
+            again(&mut s);
+            again(&mut s);
+            let vv = TensorStack::<u64, (_, _), 2>::from((view.source_ref(), view.source_ref()), (1, "row"));
+            s.built("stack 2 1:row", &vv);
+            s.probe(&vv);
+        }
+        "adversarial_names_shared" => {
+            // the shared-receiver helpers with names that contain one another, the names the
+            // interop wrappers use, and the empty name
+            // (every helper starts again from the tensor: the model gets the leaf once more)
+            let t = s.leaf(1, [("row", 2), ("", 3), ("rows", 2)]);
+            let again = |s: &mut Script| s.rec("leaf 1 row:2,_empty_:3,rows:2 via=static".into(), "ok shape=row:2,_empty_:3,rows:2".into());
+            let rn = t.rename_view(["r", "row", "ro"]);
+            s.built("rename r,row,ro", rn.source_ref());
+            s.probe(rn.source_ref());
+            again(&mut s);
+            let tr = t.transpose_view(["rows", "row", ""]);
+            s.built("transpose rows,row,_empty_", tr.source_ref());
+            s.probe(tr.source_ref());
+            again(&mut s);
+            let ix = t.index_by(["", "rows", "row"]);
+            s.built("access _empty_,rows,row", &ix);
+            s.probe(&ix);
+            again(&mut s);
+            let sel = t.select([("", 2)]);
+            s.built("index _empty_:2", sel.source_ref());
+            s.probe(sel.source_ref());
+            let m = TensorRefMatrix::with_names(MatrixRefTensor::from(sel.source_ref()), ["column", "row"]).unwrap();
+            s.built("matrixof column,row", &m);
+            s.probe(&m);
+            s.memorder(&m);
+            let ex: TensorExpansion<u64, _, 2, 2> = TensorExpansion::from(&m, [(1, "col"), (2, "")]);
+            s.built("expand 1:col,2:_empty_", &ex);
+            s.probe(&ex);
+            again(&mut s);
+            let rg = t.range([("rows", 1..2), ("", 1..3)]).unwrap();
+            s.built("range rows:1:1,_empty_:1:2", rg.source_ref());
+            s.probe(rg.source_ref());
+            again(&mut s);
+            let mk = t.mask([("", 0..1)]).unwrap();
+            s.built("mask _empty_:0:1", mk.source_ref());
+            s.probe(mk.source_ref());
+            again(&mut s);
+            let rv = t.reverse(&["", "row"]);
+            s.built("reverse _empty_,row", rv.source_ref());
+            s.probe(rv.source_ref());
         }
         "rename_setters" => {
             // the mutators of an existing adaptor: TensorRename::set_names (directly and through
